@@ -45,6 +45,9 @@ def meta(tier, seed):
                    "shift": [-3, 0.5, 10, 2 ** 20, "-2**20 (Softmax)"], "scale": [-2, 0.5, 3],
                    "narrow_dtype_laws": "shift laws of greedy / UCB1 / Softmax again with int8 reward arrays (rewards 100, 90, 60, "
                                         "-100; shifts -20, 20, 27: every value fits int8, the per-arm totals do not)",
+                   "long_training_sets": "(d) %r rows x linear policies with scale False / True, alone and under Radius x 7 fixed "
+                                         "row orders (reversed, rotations, halves swapped, even-then-odd, stride 7, grouped by "
+                                         "arm), 1e-7" % (BIG_N,),
                    "law_histories": "row sequences n <= 3 over 4 rows with "
                    "both arms observed x all compositions"},
         "assumptions": ["KNearest is outside (b): its tie-break may depend on row order, as the statement allows"],
@@ -59,6 +62,10 @@ def shards(tier, seed):
             out.append({"part": "b", "ln": ln, "nn": nn, "nmax": 5, "seed": 151 + seed})
     for law in LAWS:
         out.append({"part": "c", "law": law, "seed": 151 + seed})
+    for ln in BIG_LPS:
+        for nn in ("none", "rad"):
+            for n in BIG_N:
+                out.append({"part": "d", "ln": ln, "nn": nn, "n": n, "seed": 151 + seed})
     return A.heavy_first(out)
 
 
@@ -268,13 +275,64 @@ def part_c(shard, acc):
                 "reward_dtype": dtype or "python floats"})
 
 
+# ---------------------------------------------------------------- (d)
+# long training sets (more rows per arm than any plausible internal block size) for the linear policies with and without
+# standardisation: a fixed family of row orders, every one compared with the original order
+BIG_N = (40, 300, 600)
+BIG_LPS = ("lg", "lucb", "lg_s", "lucb_s")
+
+
+def big_rows(n):
+    return [(1 + (i * i + i // 3) % 2, [((7 * i) % 23) / 3.0 - 2.0, ((5 * i * i + 1) % 17) / 5.0, float(i % 4)],
+             ((11 * i + 3) % 13) / 4.0 - 1.0) for i in range(n)]
+
+
+def big_orders(n):
+    idx = list(range(n))
+    return {"reversed": idx[::-1], "rotate1": idx[1:] + idx[:1], "rotate_third": idx[n // 3:] + idx[:n // 3],
+            "halves_swapped": idx[n // 2:] + idx[:n // 2], "even_then_odd": idx[0::2] + idx[1::2],
+            "stride7": sorted(idx, key=lambda i: ((i * 7) % n, i)), "by_arm": sorted(idx, key=lambda i: (i * i + i // 3) % 2)}
+
+
+BIG_Q = [[0.5, 1.0, 2.0], [-1.5, 0.25, 0.0], [3.0, 3.0, 3.0]]
+
+
+def big_run(ln, nn, seed, rows):
+    m = ops.build(A.config(ln, nn, seed=seed))
+    ops.apply(m, ["fit", [r[0] for r in rows], [r[2] for r in rows], [list(r[1]) for r in rows]])
+    return ops.call(m, "predict_expectations", BIG_Q)
+
+
+def part_d(shard, acc):
+    ln, nn, seed, n = shard["ln"], shard["nn"], shard["seed"], shard["n"]
+    rows = big_rows(n)
+    base = big_run(ln, nn, seed, rows)
+    acc.outcome(base)
+    for name, order in big_orders(n).items():
+        got = big_run(ln, nn, seed, [rows[i] for i in order])
+        acc.traces += 1
+        key = (ln, nn, "big", n, name)
+        acc.state(key)
+        acc.case(key)
+        if ops.is_exc(base) or not ops.same(got, base, rtol=1e-7, atol=1e-7):
+            acc.violation("d %s/%s n=%d" % (ln, nn, n), {"part": "d", "ln": ln, "nn": nn, "seed": seed, "n": n, "order": name},
+                          "%d rows in order %r give %r; in the original order %r" % (n, name, got, base))
+    acc.sample({"part": "d", "combination": [ln, nn], "rows": n, "orders": sorted(big_orders(n))})
+
+
 def run_shard(shard):
     acc = report.Acc(ID, replay, shard)
-    {"a": part_a, "b": part_b, "c": part_c}[shard["part"]](shard, acc)
+    {"a": part_a, "b": part_b, "c": part_c, "d": part_d}[shard["part"]](shard, acc)
     return acc.result()
 
 
 def replay(w):
+    if w["part"] == "d":
+        rows = big_rows(w["n"])
+        base = big_run(w["ln"], w["nn"], w["seed"], rows)
+        got = big_run(w["ln"], w["nn"], w["seed"], [rows[i] for i in big_orders(w["n"])[w["order"]]])
+        return [] if ops.same(got, base, rtol=1e-7, atol=1e-7) else ["%d rows reordered (%s) give %r, original %r" % (
+            w["n"], w["order"], got, base)]
     if w["part"] == "a":
         mp = RELABELS[w["relabel"]]
         base = scenario_a(w["ln"], w["nn"], w["seed"], {1: 1, 2: 2, 3: 3})
